@@ -10,6 +10,8 @@ package main
 import (
 	"errors"
 	"fmt"
+	"io/ioutil"
+	"strconv"
 	"math/big"
 	"math/rand"
 	"strings"
@@ -25,6 +27,7 @@ import (
 	"com.tuntun.rangers/node/src/middleware/notify"
 	pb "com.tuntun.rangers/node/src/middleware/pb"
 	"com.tuntun.rangers/node/src/middleware/types"
+	"com.tuntun.rangers/node/src/network"
 	"com.tuntun.rangers/node/src/utility"
 	"github.com/golang/protobuf/proto"
 
@@ -77,18 +80,81 @@ func has(stack string, frames ...string) bool {
 	return false
 }
 
-func syncEntry(topic string, pbNew func() proto.Message, mk func(b []byte) notify.Message, decoder string) *parserDef {
-	return &parserDef{name: "core.sync[" + topic + "]", booted: true, typ: "handler",
+// lastDecodable: did the independent protobuf decode of the last handler input succeed
+// (booted parsers run on one goroutine).
+var lastDecodable bool
+
+// signCheckLogLine: the panic is raised by the statement that logs a failed signature check
+// with e.Error() although e (the decode error) is nil — DESIGN §8.6, reached only with bytes
+// the decoder accepted. Decided on the source line named by the first repository frame.
+func signCheckLogLine(cr callRes) bool {
+	if !lastDecodable {
+		return false
+	}
+	lines := strings.Split(cr.stack, "\n")
+	for i, l := range lines {
+		if strings.HasPrefix(l, "com.tuntun.rangers/node/") && i+1 < len(lines) && i > 0 && !strings.HasPrefix(lines[i-1], "\t") == false {
+			_ = l
+		}
+	}
+	seenPanic := false
+	for i, l := range lines {
+		if strings.HasPrefix(l, "panic(") {
+			seenPanic = true
+			continue
+		}
+		if seenPanic && strings.HasPrefix(l, "com.tuntun.rangers/node/") && i+1 < len(lines) {
+			loc := strings.TrimSpace(lines[i+1]) // /path/file.go:123 +0x..
+			if k := strings.IndexByte(loc, ' '); k > 0 {
+				loc = loc[:k]
+			}
+			k := strings.LastIndexByte(loc, ':')
+			if k < 0 {
+				return false
+			}
+			n, err := strconv.Atoi(loc[k+1:])
+			src, err2 := ioutil.ReadFile(loc[:k])
+			if err != nil || err2 != nil {
+				return false
+			}
+			sl := strings.Split(string(src), "\n")
+			if n < 1 || n > len(sl) {
+				return false
+			}
+			return strings.Contains(sl[n-1], "Sign verify error") && strings.Contains(sl[n-1], "e.Error()")
+		}
+	}
+	return false
+}
+
+func handlerEntry(topic string, code uint32, pbNew func() proto.Message, deliver func(b []byte)) *parserDef {
+	return &parserDef{name: "handler:" + topic, booted: true, typ: "handler", code: code,
 		fn: func(b []byte) (interface{}, error) {
-			decodable := proto.Unmarshal(b, pbNew()) == nil
-			core.SyncProcessor.HandleNetMessage(topic, mk(b))
-			if !decodable {
+			lastDecodable = proto.Unmarshal(b, pbNew()) == nil
+			deliver(b)
+			if !lastDecodable {
 				return nil, errRejected
 			}
 			return handled{}, nil
 		},
-		inDecoder: func(stack string) bool { return has(stack, "core."+decoder+"(") },
+		exempt: signCheckLogLine,
 	}
+}
+
+func syncEntry(topic string, code uint32, pbNew func() proto.Message, mk func(b []byte) notify.Message) *parserDef {
+	return handlerEntry(topic, code, pbNew, func(b []byte) { core.SyncProcessor.HandleNetMessage(topic, mk(b)) })
+}
+
+// consensus message codes (network/interface.go) that WorkerConn hands to ConsensusHandler.Handle
+var consensusCodes = []struct {
+	name string
+	code uint32
+}{
+	{"GroupInitMsg", network.GroupInitMsg}, {"KeyPieceMsg", network.KeyPieceMsg}, {"SignPubkeyMsg", network.SignPubkeyMsg},
+	{"GroupInitDoneMsg", network.GroupInitDoneMsg}, {"CurrentGroupCastMsg", network.CurrentGroupCastMsg}, {"CastVerifyMsg", network.CastVerifyMsg},
+	{"VerifiedCastMsg", network.VerifiedCastMsg}, {"CreateGroupaRaw", network.CreateGroupaRaw}, {"CreateGroupSign", network.CreateGroupSign},
+	{"AskSignPkMsg", network.AskSignPkMsg}, {"AnswerSignPkMsg", network.AnswerSignPkMsg}, {"GroupPing", network.GroupPing},
+	{"GroupPong", network.GroupPong}, {"ReqSharePiece", network.ReqSharePiece}, {"ResponseSharePiece", network.ResponseSharePiece},
 }
 
 var bootedOnce sync.Once
@@ -113,54 +179,49 @@ func bootedParsers() []*parserDef {
 					}
 					return v, e
 				}},
-			syncEntry(notify.TopBlockInfo, func() proto.Message { return new(pb.ChainInfo) },
-				func(b []byte) notify.Message { return &notify.ChainInfoMessage{ChainInfo: b, Peer: "peer"} }, "unMarshalChainInfo"),
-			syncEntry(notify.BlockChainPieceReq, func() proto.Message { return new(pb.BlockChainPieceReq) },
+			syncEntry(notify.TopBlockInfo, network.TopBlockInfoMsg, func() proto.Message { return new(pb.ChainInfo) },
+				func(b []byte) notify.Message { return &notify.ChainInfoMessage{ChainInfo: b, Peer: "peer"} }),
+			syncEntry(notify.BlockChainPieceReq, network.BlockChainPieceReqMsg, func() proto.Message { return new(pb.BlockChainPieceReq) },
 				func(b []byte) notify.Message {
 					return &notify.BlockChainPieceReqMessage{BlockChainPieceReq: b, Peer: "peer"}
-				}, "unMarshalBlockChainPieceReq"),
-			syncEntry(notify.BlockChainPiece, func() proto.Message { return new(pb.BlockChainPiece) },
+				}),
+			syncEntry(notify.BlockChainPiece, network.BlockChainPieceMsg, func() proto.Message { return new(pb.BlockChainPiece) },
 				func(b []byte) notify.Message {
 					return &notify.BlockChainPieceMessage{BlockChainPieceByte: b, Peer: "peer"}
-				}, "unMarshalBlockChainPiece"),
-			syncEntry(notify.BlockReq, func() proto.Message { return new(pb.BlockReq) },
-				func(b []byte) notify.Message { return &notify.BlockReqMessage{ReqInfoByte: b, Peer: "peer"} }, "unMarshalBlockSyncReq"),
-			syncEntry(notify.BlockResponse, func() proto.Message { return new(pb.BlockMsgResponse) },
-				func(b []byte) notify.Message { return &notify.BlockResponseMessage{BlockResponseByte: b, Peer: "peer"} }, "unMarshalBlockMsgResponse"),
-			syncEntry(notify.GroupReq, func() proto.Message { return new(pb.GroupReq) },
-				func(b []byte) notify.Message { return &notify.GroupReqMessage{ReqInfoByte: b, Peer: "peer"} }, "unMarshalGroupSyncReq"),
-			syncEntry(notify.GroupResponse, func() proto.Message { return new(pb.GroupMsgResponse) },
-				func(b []byte) notify.Message { return &notify.GroupResponseMessage{GroupResponseByte: b, Peer: "peer"} }, "unMarshalGroupMsgResponse"),
-			{name: "core.chain[" + notify.TransactionReq + "]", booted: true, typ: "handler",
-				fn: func(b []byte) (interface{}, error) {
-					decodable := proto.Unmarshal(b, new(pb.TransactionRequestMessage)) == nil
+				}),
+			syncEntry(notify.BlockReq, network.ReqBlockMsg, func() proto.Message { return new(pb.BlockReq) },
+				func(b []byte) notify.Message { return &notify.BlockReqMessage{ReqInfoByte: b, Peer: "peer"} }),
+			syncEntry(notify.BlockResponse, network.BlockResponseMsg, func() proto.Message { return new(pb.BlockMsgResponse) },
+				func(b []byte) notify.Message { return &notify.BlockResponseMessage{BlockResponseByte: b, Peer: "peer"} }),
+			syncEntry(notify.GroupReq, network.ReqGroupMsg, func() proto.Message { return new(pb.GroupReq) },
+				func(b []byte) notify.Message { return &notify.GroupReqMessage{ReqInfoByte: b, Peer: "peer"} }),
+			syncEntry(notify.GroupResponse, network.GroupResponseMsg, func() proto.Message { return new(pb.GroupMsgResponse) },
+				func(b []byte) notify.Message { return &notify.GroupResponseMessage{GroupResponseByte: b, Peer: "peer"} }),
+			handlerEntry(notify.TransactionReq, network.ReqTransactionMsg, func() proto.Message { return new(pb.TransactionRequestMessage) },
+				func(b []byte) {
 					core.ChainHandler{}.HandleNetMessage(notify.TransactionReq, &notify.TransactionReqMessage{TransactionReqByte: b, Peer: "peer"})
-					if !decodable {
-						return nil, errRejected
-					}
-					return handled{}, nil
-				},
-				inDecoder: func(stack string) bool { return has(stack, "core.unMarshalTransactionRequestMessage(") }},
-			{name: "core.chain[" + notify.NewBlock + "]", booted: true, typ: "handler",
-				fn: func(b []byte) (interface{}, error) {
-					// only inputs that cannot reach AddBlockOnChain: UnMarshalBlock fails, panics, or returns a block without header
-					complete := false
-					func() {
-						defer func() { recover() }()
-						blk, err := types.UnMarshalBlock(b)
-						complete = err == nil && blk != nil && blk.Header != nil
-					}()
-					if complete {
-						return nil, errRejected
-					}
-					decodable := proto.Unmarshal(b, new(pb.Block)) == nil
+				}),
+			// a block relayed by a peer: every body, also complete blocks (AddBlockOnChain judges them)
+			handlerEntry(notify.NewBlock, network.NewBlockMsg, func() proto.Message { return new(pb.Block) },
+				func(b []byte) {
 					core.ChainHandler{}.HandleNetMessage(notify.NewBlock, &notify.NewBlockMessage{BlockByte: b, Peer: "peer"})
-					if !decodable {
-						return nil, errRejected
+				}),
+			// transactions answered by a peer: decoded and admitted inside WorkerConn.handleMessage itself (hook H10)
+			handlerEntry("transaction_got", 0, func() proto.Message { return new(pb.TransactionSlice) },
+				func(b []byte) {
+					network.VerifWorkerHandleMessage(network.TransactionGotMsg, b, "peer", common.DefaultLogger)
+				}),
+		}
+		// ConsensusHandler.Handle for every consensus message code: it recovers what its decoders throw; nothing may escape
+		for _, cc := range consensusCodes {
+			cc := cc
+			bootedList = append(bootedList, &parserDef{name: "consensus.Handle[" + cc.name + "]", booted: true, typ: "handler", code: cc.code,
+				fn: func(b []byte) (interface{}, error) {
+					if err := cnet.MessageHandler.Handle("peer", network.Message{Code: cc.code, Body: b}); err != nil {
+						return nil, err
 					}
 					return handled{}, nil
-				},
-				inDecoder: func(stack string) bool { return has(stack, "types.UnMarshalBlock(") }},
+				}})
 		}
 	})
 	return bootedList
@@ -287,13 +348,13 @@ func (e *engine) hostileBooted() {
 	// core sync messages
 	chainInfo := message{req(fB("TopBlockHash", 1, seqBytes(32, 1))), req(fV("TotalQn", 2, 5)), req(fV("TopBlockHeight", 3, 7)), req(fB("PreHash", 4, seqBytes(32, 2))),
 		req(fV("TopGroupHeight", 5, 1)), req(fB("SignInfo", 6, ks.all()))}
-	e.family(bootedByName("core.sync["+notify.TopBlockInfo+"]"), chainInfo, "ChainInfo", map[string][]hostile{"SignInfo": ksV}, nMut, nRand)
+	e.family(bootedByName("handler:"+notify.TopBlockInfo), chainInfo, "ChainInfo", map[string][]hostile{"SignInfo": ksV}, nMut, nRand)
 	heightReq := message{req(fV("Height", 1, 3)), req(fB("SignInfo", 2, ks.all()))}
 	for _, t := range []string{notify.BlockChainPieceReq, notify.BlockReq, notify.GroupReq} {
-		e.family(bootedByName("core.sync["+t+"]"), heightReq, "HeightReq", map[string][]hostile{"SignInfo": ksV}, nMut, nRand)
+		e.family(bootedByName("handler:"+t), heightReq, "HeightReq", map[string][]hostile{"SignInfo": ksV}, nMut, nRand)
 	}
 	piece := message{fRep("BlockHeaders", 1, goodHdr, headerMsg(2).all()), req(fB("TopHeader", 2, goodHdr)), req(fB("SignInfo", 3, ks.all()))}
-	e.family(bootedByName("core.sync["+notify.BlockChainPiece+"]"), piece, "BlockChainPiece",
+	e.family(bootedByName("handler:"+notify.BlockChainPiece), piece, "BlockChainPiece",
 		map[string][]hostile{"BlockHeaders": hdrs, "TopHeader": hdrs, "SignInfo": ksV}, nMut, nRand)
 	var blks []hostile
 	for _, h := range hdrs {
@@ -305,15 +366,15 @@ func (e *engine) hostileBooted() {
 	}
 	blks = append(blks, hostile{blockMsg(goodHdr).enc(2), "Block missing=Header"}, hostile{nil, "Block empty"})
 	resp := message{req(fV("IsLast", 1, 1)), fB("Block", 2, blockMsg(goodHdr, goodTx).all()), req(fB("SignInfo", 3, ks.all()))}
-	e.family(bootedByName("core.sync["+notify.BlockResponse+"]"), resp, "BlockMsgResponse", map[string][]hostile{"Block": blks, "SignInfo": ksV}, nMut, nRand)
+	e.family(bootedByName("handler:"+notify.BlockResponse), resp, "BlockMsgResponse", map[string][]hostile{"Block": blks, "SignInfo": ksV}, nMut, nRand)
 	gresp := message{req(fV("IsLast", 1, 0)), fB("Group", 2, groupMsg(groupHeaderMsg(0).all(), 0).all()), req(fB("SignInfo", 3, ks.all()))}
-	e.family(bootedByName("core.sync["+notify.GroupResponse+"]"), gresp, "GroupMsgResponse", map[string][]hostile{"Group": grps, "SignInfo": ksV}, nMut, nRand)
+	e.family(bootedByName("handler:"+notify.GroupResponse), gresp, "GroupMsgResponse", map[string][]hostile{"Group": grps, "SignInfo": ksV}, nMut, nRand)
 
 	// core chain handler
 	treq := message{fRep("TransactionHashes", 1, txHashMsg(1).all(), txHashMsg(3).all()), req(fB("CurrentBlockHash", 2, seqBytes(32, 1))), req(fV("BlockHeight", 3, 9)), req(fB("BlockPv", 4, seqBytes(80, 1)))}
-	e.family(bootedByName("core.chain["+notify.TransactionReq+"]"), treq, "TransactionRequestMessage",
+	e.family(bootedByName("handler:"+notify.TransactionReq), treq, "TransactionRequestMessage",
 		map[string][]hostile{"TransactionHashes": {{txHashMsg(1).enc(0), "empty"}, {txHashMsg(1).enc(1), "no subHash"}, {seqBytes(40, 0x0a), "garbage"}}}, nMut, nRand)
-	nb := bootedByName("core.chain[" + notify.NewBlock + "]")
+	nb := bootedByName("handler:" + notify.NewBlock)
 	e.runList(nb, blks, nil)
 	e.runList(nb, mutations(blockMsg(goodHdr, goodTx).all(), 0, nil, "Block "), nil)
 	e.runGen(nb, "random", nRand, func(rng *rand.Rand, k int) hostile { return randomBytes(1, rng, 4)[0] })
